@@ -58,6 +58,26 @@ fn main() {
             std::process::exit(2);
         }
     };
+    // watchdog: a subject that hangs (or an explorer that does) must not hang the caller; a run that
+    // exceeds the wall cap ends as a machinery failure, never as a verdict
+    let cap_s: u64 = std::env::var("SFSMC_WALL_CAP_S").ok().and_then(|s| s.parse().ok()).unwrap_or(match tier {
+        Tier::Quick => 900,
+        Tier::Thorough => 7200,
+    });
+    let id_owned = id.to_string();
+    std::thread::spawn(move || {
+        std::thread::sleep(std::time::Duration::from_secs(cap_s));
+        let early = verdict::early_violations();
+        if early.is_empty() {
+            eprintln!("ENGINE: check {id_owned} exceeded its wall cap of {cap_s} s (a call into the subject does not return, or the exploration is far slower than on the unchanged tree); machinery failure, not a verdict");
+            std::process::exit(2);
+        }
+        eprintln!("ENGINE: check {id_owned} exceeded its wall cap of {cap_s} s and is cut short; the violations recorded before that are reported (no evidence file is written for a cut run)");
+        for (prop, path) in early {
+            println!("VIOLATION property={prop} replay={}", path.display());
+        }
+        std::process::exit(1);
+    });
     let code = match std::panic::catch_unwind(|| props::run(id, tier)) {
         Ok(c) => c,
         Err(_) => {
